@@ -57,6 +57,16 @@ def cachedOp (st : CachedSt) (ts : List String) : Option (CachedSt × String × 
       let under ← (match u with | "t" => some (some true) | "f" => some (some false) | "e" => some none | _ => none)
       let q ← ps.mapM parseParam
       go (.enforce q under)
+  | "ckey" :: ps => do
+      -- GetCacheKey on a parameter list: the key bytes (percent-encoded) or `none`
+      let q ← ps.mapM parseParam
+      let shown := match cacheKey q with
+        | some k => "k:" ++ String.join (k.map (fun b =>
+            let c := Char.ofNat b.toNat
+            if b.toNat < 128 && Proto.safeChar c then c.toString
+            else "%" ++ (Proto.hexDigit (b.toNat / 16)).toString ++ (Proto.hexDigit (b.toNat % 16)).toString))
+        | none => "none"
+      some (st, shown, "-", true)
   | ["cinv"] => go .invalidate
   | ["cload"] => go .load
   | ["cclear"] => go .clear
